@@ -631,9 +631,11 @@ def identity(node: ir.Node, op, state: OptimizerState) -> ReturnValue:
     input = node.inputs[0]
     output = node.outputs[0]
     if input is not None and output is not None:
-        # NOTE: backward shape inference
+        # NOTE: backward shape inference. The declared shape of a graph input is part of
+        # the model's interface and is left as it is.
         try:
-            input.shape = _merge_shapes(input.shape, output.shape)
+            if not input.is_graph_input():
+                input.shape = _merge_shapes(input.shape, output.shape)
         except Exception as e:
             logger.warning(
                 "[Constant folder] Cannot merge shapes on Identity node '%s' "
